@@ -10,5 +10,18 @@ CHECKS = [
          technique="exhaustive enumeration + property-based sampling against the statement's inequalities"),
 ]
 
+CHECKS += [
+    dict(property_id="C13", category="exploration",
+         text="Every ordered pair of subsets of four small GTID universes (2 UUIDs x numbers 1-4 / 1-6 in thorough, tagged variants) x 3 master UUIDs is enumerated exhaustively through the real ParseGtidSet / IsSlaveBehindOrEqual / IsSlaveAhead / IsSplitBrained / GTIDDiff and compared with an interval-membership reference model; random large sets (gaps, tags, numbers to 2^40, un-normalised spellings) and generated lists of 1-5 node positions (chains, incomparable members, antichains) extend it to findMostRecentNodeAndDetectSplitbrain. The small universes are covered completely; beyond them this is sampling.",
+         design_ref="DESIGN.md section 4, C13",
+         note="Trusted: the reference model (closed intervals + membership on elementary segments, ~40 lines) and the renderer that prints sets the way MySQL does.",
+         technique="exhaustive small-universe enumeration + property-based testing against a reference set model (differential oracle, round-trip of the diff text)"),
+    dict(property_id="C14", category="exploration",
+         text="Generated candidate lists (0-6 nodes, priorities, lag grid around the bound incl. unknown lag, chain/equal/incomparable/antichain GTID sets, optional 'from' host, six bounds incl. 0) are fed to the real getMostDesirableNode composed with filterOutNodeFromPositions; the oracle is a validity predicate written from the statement (not one expected answer, because mysync's scan order may legitimately pick any of several). Termination is checked with a watchdog and by treating a stack-overflow death of the worker as a violation with the in-flight case as replay.",
+         design_ref="DESIGN.md section 4, C14",
+         note="Trusted: the validity predicate; the 10 s watchdog is 10^6 times the normal run time of the function.",
+         technique="property-based testing with a validity-predicate oracle"),
+]
+
 _claimed = {c["property_id"] for c in CHECKS}
 NOT_APPLICABLE = [dict(property_id=p, reason="check not built yet in this revision (framework under construction; see DESIGN.md build order)") for p in ALL if p not in _claimed]
